@@ -138,6 +138,19 @@ func (e *Exec) schedule() bool {
 			e.preempts++
 		}
 	}
+	if next.timer != nil {
+		// fire the timer: time.After sends a value, context deadlines close the channel
+		if next.timerKind == "timer" {
+			if len(next.timer.Buf) < next.timer.Cap {
+				next.timer.Buf = append(next.timer.Buf, e.zeroTime())
+			}
+		} else {
+			next.timer.Closed = true
+		}
+		next.done = true
+		next.pending = nil
+		return true
+	}
 	e.cur = next
 	if next.pending != nil {
 		next.pending = nil
